@@ -81,8 +81,15 @@ def apply_fault(cfg, fault, draw):
         g['registers'] = list(g.get('registers') or []) + [draw(st.sampled_from(KEYWORDS))]
     elif fault == 'macro-named-like-instruction':
         mn = draw(st.sampled_from(mns))
-        mn = draw(st.sampled_from([mn, mn.upper()]))
-        cfg.setdefault('macros', {})[mn] = [{'instructions': [sorted(cfg['instructions'])[0]]}]
+        # mnemonics are case-insensitive: the instruction key and the macro key may differ in letter case
+        style = draw(st.sampled_from(['same', 'macro-upper', 'instr-upper', 'instr-title']))
+        if style in ('instr-upper', 'instr-title'):
+            key = mn.upper() if style == 'instr-upper' else mn.title()
+            cfg['instructions'] = {(key if k == mn else k): v for k, v in cfg['instructions'].items()}
+            macro_name = mn
+        else:
+            macro_name = mn.upper() if style == 'macro-upper' else mn
+        cfg.setdefault('macros', {})[macro_name] = [{'instructions': [sorted(cfg['instructions'])[0]]}]
     elif fault == 'undeclared-operand-set':
         cfg['instructions']['zzq'] = {'bytecode': {'value': 1, 'size': 8},
                                       'operands': {'count': 1, 'operand_sets': {'list': ['no_such_set']}}}
